@@ -103,6 +103,7 @@ type partition struct {
 	shardID              models.ShardID
 	currentNodeID        models.NodeID
 	mutex                sync.Mutex
+	loopWaiter           sync.WaitGroup // replica loops which are running
 }
 
 // NewPartition creates a writeTask ahead log partition(db+shard+family time+leader).
@@ -306,7 +307,9 @@ func (p *partition) startReplicatorLoop(nodeID models.NodeID, replicator Replica
 		return
 	}
 	p.replicatorLoops[nodeID] = replicator
+	p.loopWaiter.Add(1)
 	go func() {
+		defer p.loopWaiter.Done()
 		for p.running.Load() && p.isActiveReplicator(nodeID, replicator) {
 			p.replica(nodeID, replicator)
 		}
@@ -382,7 +385,18 @@ func (p *partition) stop() {
 	// 1. cancel context of partition(will stop replicator)
 	p.cancel()
 
-	// 2. stop the peer of replicator
+	// 2. wake up the replica loops which are waiting for new message, then wait until they finished the
+	// message in flight. if not, the storage engine is closed while a message is being written:
+	// the write fails half way, its sequence is committed and persisted, the message is lost.
+	p.mutex.Lock()
+	replicators := p.replicators
+	p.mutex.Unlock()
+	for k := range replicators {
+		replicators[k].Pause()
+	}
+	p.loopWaiter.Wait()
+
+	// 3. stop the peer of replicator
 	var waiter sync.WaitGroup
 	waiter.Add(len(p.replicators))
 	for k := range p.replicators {
